@@ -191,7 +191,7 @@ class Matcher:
     def check_result(self, n, exp, out):
         first = None
         for ex in exp["execs"]:
-            if ex["event"] != "__initial__":
+            if not ex.get("initial"):
                 first = ex
                 break
         actual = out.get("res")
@@ -250,7 +250,7 @@ class Matcher:
         # stray records of other instances inside this op are judged by the campaigns that care
         self.stats["execs"] += len(exp["execs"])
         for i, ex in enumerate(exp["execs"]):
-            if ex["event"] == "__initial__":
+            if ex.get("initial"):
                 self.stats["initial_execs"] += 1
             elif i > 0:
                 self.stats["queued_execs"] += 1
